@@ -19,7 +19,7 @@ callees are resolved by the real overload resolution.
 import collections
 import re
 
-from rkstatic.x_vecexpr import (COMPS, FnView, Formula, Inliner, Poly, calls_in, commute, ctor_fields, fold_consts, map_terms, select_to_minmax, subst_params, unroll, flatten, poly, show, strip_casts, subst,
+from rkstatic.x_vecexpr import (straightline, COMPS, FnView, Formula, Inliner, Poly, calls_in, commute, ctor_fields, fold_consts, map_terms, select_to_minmax, subst_params, unroll, flatten, poly, show, strip_casts, subst,
                                 tclean, tkey, tparse, unknowns, vecshape)
 
 LEVEL = 'other'
@@ -248,6 +248,10 @@ def single_return(v):
     b = v.body()
     if len(b) == 1 and b[0][0] == 'ret' and b[0][1] is not None:
         return b[0][1]
+    if len(b) > 1 and b[-1][0] == 'ret' and all(st[0] in ('decl', 'expr') for st in b[:-1]):
+        # a result built up in a local (`V r(e0); r += e1; ...; return r;`): the returned value by forward substitution.
+        # `r op= e` is read as `r = r op e`, which is what R-C04-2 establishes for the compound operators of vec_t.
+        return straightline(b, getattr(v, 'fields_of', None), v.byref)
     return None
 
 
@@ -920,6 +924,17 @@ def fam_interpolate(res, s, v):
         res.und(R3, 'interpolate_uv: body is not a single understood return')
         return
     t = unwrap_vec(t)
+    # a partial sum held in a local of the result type: vec_t<T,3,true>(e) of a vec_t<T,3> value e converts between paddings
+    # of the same element type, component by component (R-C04-5), and is the identity on x, y, z
+    elem = (s.params[1].get('sh') or {}).get('elem')
+
+    def same_elem_conv(x):
+        if x[0] == 'ctor' and x[1] and x[1].startswith('vec_t<') and len(x[2]) == 1 and x[2][0][0] in ('b', 'ctor'):
+            sh = vecshape(x[1])
+            if sh is not None and elem is not None and sh['elem'] == elem:
+                return x[2][0]
+        return x
+    t = map_terms(t, same_elem_conv)
     exp = ('b', '+', ('b', '+', ('b', '*', A(0, 'x'), ('p', 1)), ('b', '*', A(0, 'y'), ('p', 2))), ('b', '*', A(0, 'z'), ('p', 3)))
     pa, pe = poly(strip_casts(t), names=s.names), poly(exp, names=s.names)
     allowed = pe.atoms()
